@@ -367,6 +367,17 @@ func create2Salt(creator common.Address, init []byte) [32]byte {
 	}
 }
 
+func create2SaltQi(creator common.Address, init []byte) [32]byte {
+	h := crypto.Keccak256(init)
+	salt := [32]byte{0: 0x51}
+	for i := uint64(0); ; i++ {
+		binary.BigEndian.PutUint64(salt[24:], i)
+		if a := crypto.CreateAddress2(creator, salt, h, loc); a.Bytes()[0] == loc.BytePrefix() && a.IsInQiLedgerScope() {
+			return salt
+		}
+	}
+}
+
 // compile assembles contract i.  asInit: the body runs as init code and finally returns runtime variant rt.
 func (p *program) compile(i int, asInit bool, rt int) []byte {
 	a := newAsm()
@@ -608,7 +619,9 @@ func (p *program) compile(i int, asInit bool, rt int) []byte {
 			a.pushU(canary)
 			if two {
 				salt := [32]byte{31: 1}
-				if o.E%3 != 2 { // otherwise an arbitrary salt: the address is almost surely outside the zone
+				if o.E%6 == 5 { // a salt ground for an in-zone Qi-ledger address: the creation must fail and leave nothing
+					salt = create2SaltQi(contractAddrs[i], init)
+				} else if o.E%3 != 2 { // otherwise an arbitrary salt: the address is almost surely outside the zone
 					key := string(contractAddrs[i].Bytes()) + string(crypto.Keccak256(init))
 					s, ok := p.salts[key]
 					if !ok {
